@@ -85,3 +85,32 @@ Example ex_lazy :
      = Ok (s "h(c=g(a=out(a;f(x=1)),b=out(b;f(x=1))),a=out(a;f(x=1)))")
   /\ map fst (elog (fst (evaluate Sym.body Sym.pick {| eheap := lheap st; elog := [] |} (ARef 4)))) = [0; 3; 4].
 Proof. vm_compute. auto. Qed.
+
+(* ---------- sequences of requests to one lazy pipeline object (Model/LazySeq.v: task-graph / LRU caches) ---------- *)
+From Verif Require Import Model.LazySeq Proofs.LazySeqFacts.
+
+(* the first request to a fresh lazy pipeline object (inside a fresh construct_dag() block or outside, with or
+   without cached functions) never hits a cache: it is exactly Lazy.lazy_run, so every theorem above applies to
+   it.  Hypothesis: root_args succeeds on every output (decidable for a given pipeline, see ex_seq_roots). *)
+Theorem C18_first_request_is_lazy_run : forall p dagon o kw full,
+  wf_pipeline p -> forallb (fun o' => is_ok (root_args p o')) (all_outputs p) = true ->
+  exists c, crequest p dagon pinit o kw full =
+            (fst (lazy_run p o kw full dagon),
+             {| pheap := lheap (snd (lazy_run p o kw full dagon)); pdag := ldag (snd (lazy_run p o kw full dagon));
+                pcache := c; plog := [] |}).
+Proof. exact first_request_is_lazy_run. Qed.
+Print Assumptions C18_first_request_is_lazy_run.
+
+Example ex_seq_roots : forallb (fun o' => is_ok (root_args ex_p o')) (all_outputs ex_p) = true.
+Proof. vm_compute. reflexivity. Qed.
+(* "a" then "d" with the same root value inside one construct_dag(): the node of f is shared through the cache
+   (5 + 2 + 2 nodes: the second request adds its own pickers, g and h), and f runs once *)
+Example ex_seq :
+  let rs := [(s "a", [(s "x", s "1")], false, false); (s "d", [(s "x", s "1")], false, false)] in
+  let '(ps1, outcomes) := run_requests Sym.body Sym.pick ex_p true pinit rs in
+  let '(ps2, values) := eval_all Sym.body Sym.pick ps1 outcomes in
+  plog ps1 = [] /\ length (pheap ps2) = 7
+  /\ map (fun e => fst (snd e)) (plog ps2) = [s "f"; s "g"; s "h"]
+  /\ values = [Some (Ok (inl (s "out(a;f(x=1))")));
+               Some (Ok (inl (s "h(c=g(a=out(a;f(x=1)),b=out(b;f(x=1))),a=out(a;f(x=1)))")))].
+Proof. vm_compute. auto. Qed.
